@@ -115,7 +115,7 @@ def default_m_table(ctx, g):
            "1 on the diagonal, 0 for adjacent indices in either order, 2 otherwise, None outside the ranges (%d argument triples)" % n if not bad and n else (bad or "nothing evaluated"))
 
 
-def delegated(atom, env, me):
+def delegated(atom, env, me, DIM=3, SIZE=5):
     """`self.r(i, j, d)?` / `if let Some(..) = self.op(i, d)`: the success arm of a sibling accessor called on self with integer arguments that are
     out of range for it is not taken (that accessor is itself in the scope of this rule); None when the atom is not of that form"""
     if atom[0] != "variant":
@@ -133,7 +133,7 @@ def delegated(atom, env, me):
     if len(args) < 3 or strip(args[0]) != me or any(strip(a) not in env for a in args[1:]):
         return None
     vals = [env[strip(a)] for a in args[1:]]
-    if any(v > 3 for v in vals[:-1]) or vals[-1] < 1 or vals[-1] > 5:
+    if any(v > DIM for v in vals[:-1]) or vals[-1] < 1 or vals[-1] > SIZE:
         return False
     return None
 
@@ -164,28 +164,30 @@ def none_outside_ranges(ctx, g):
         ints = [k for k in range(2, b.argc + 1) if b.local_ty(k) in INT_TYS]
         me = ("param", 1, b.debug.get(1, ""))
         ps = [("param", k, b.debug.get(k, "")) for k in ints]
-        base = {("call", "dsets::DSet::dim", (me,)): 3, ("call", "dsets::DSet::size", (me,)): 5, ("field", me, "dim"): 3, ("field", me, "size"): 5}
         paths = paths_to(b, 0, set(rets), g=g)
         bad = None
         cnt = 0
-        for vals in itertools.product(*([range(5)] * (len(ps) - 1) + [(0, 1, 5, 6)])):
-            env = dict(base)
-            env.update(dict(zip(ps, vals)))
-            outside = any(v > 3 for v in vals[:-1]) or vals[-1] < 1 or vals[-1] > 5
-            if not outside:
-                continue
-            cnt += 1
-            for tgt, atoms in paths:
-                if not rets[tgt]:
-                    continue
-                ev = [delegated(a, env, me) if delegated(a, env, me) is not None else eval_atom_env(a, env) for a in atoms if not is_ovf_atom(a)]
-                if all(e is None or e for e in ev):
-                    names = [p[2] for p in ps]
-                    bad = bad or "%s(%s) on a D-set of dimension 3 and size 5 can reach a `Some(..)` return (%s): out-of-range arguments must give None" % (
-                        name.split("::")[-1], ", ".join("%s = %d" % (a_, v_) for a_, v_ in zip(names, vals)), b.span_of(tgt))
+        # two shapes: (dimension 3, size 5) and (dimension 3, size 1) - the second tells `i > dim()` from `i > size()`
+        for DIM, SIZE in ((3, 5), (3, 1)):
+            base = {("call", "dsets::DSet::dim", (me,)): DIM, ("call", "dsets::DSet::size", (me,)): SIZE, ("field", me, "dim"): DIM, ("field", me, "size"): SIZE}
+            for vals in itertools.product(*([range(DIM + 2)] * (len(ps) - 1) + [(0, 1, SIZE, SIZE + 1)])):
+                env = dict(base)
+                env.update(dict(zip(ps, vals)))
+                outside = any(v > DIM for v in vals[:-1]) or vals[-1] < 1 or vals[-1] > SIZE
+                cnt += 1
+                names = [p[2] for p in ps]
+                for tgt, atoms in paths:
+                    ev = [delegated(a, env, me, DIM, SIZE) if delegated(a, env, me, DIM, SIZE) is not None else eval_atom_env(a, env) for a in atoms if not is_ovf_atom(a)]
+                    if outside and rets[tgt] and all(e is None or e for e in ev):
+                        bad = bad or "%s(%s) on a D-set of dimension %d and size %d can reach a `Some(..)` return (%s): out-of-range arguments must give None" % (
+                            name.split("::")[-1], ", ".join("%s = %d" % (a_, v_) for a_, v_ in zip(names, vals)), DIM, SIZE, b.span_of(tgt))
+                    if not outside and not rets[tgt] and ev and all(e is True for e in ev):
+                        # a None that depends only on the arguments and the shape (no table lookup on the path): the range guard itself rejects a legal query
+                        bad = bad or "%s(%s) on a D-set of dimension %d and size %d is answered None by the range guard alone (%s) although every argument is in range" % (
+                            name.split("::")[-1], ", ".join("%s = %d" % (a_, v_) for a_, v_ in zip(names, vals)), DIM, SIZE, b.span_of(tgt))
         n += 1
         ctx.ob("T4-none-outside-ranges", name, "Some(..) returns", "ok" if not bad and cnt else "violation",
-               "no Some(..) return is reachable for any of %d out-of-range argument tuples (%d paths)" % (cnt, len(paths)) if not bad and cnt else (bad or "nothing evaluated"))
+               "no Some(..) return is reachable for an out-of-range tuple and no in-range tuple is rejected by the guard alone (%d argument tuples on two shapes, %d paths)" % (cnt, len(paths)) if not bad and cnt else (bad or "nothing evaluated"))
     ctx.floor("accessors that build their own Option", n, 8)
 
 
